@@ -710,9 +710,64 @@ func runC08(c *Check) {
 			t, pol = normFact(t, pol)
 			return pol && t.Op == "bin" && t.Name == ">=" && strings.Contains(t.Args[0].String(), ").numPending") && strings.HasSuffix(t.Args[1].String(), ".MaxPendingHeadersAndData")
 		}))
+		isLimitNZ := func(f Fact) bool {
+			t := f.Cond
+			return f.Pol && t.Op == "bin" && t.Name == "!=" && strings.HasSuffix(t.Args[0].String(), ".MaxPendingHeadersAndData") && t.Args[1].Name == "0"
+		}
+		isOver := func(f Fact) bool {
+			t := f.Cond
+			return f.Pol && t.Op == "bin" && t.Name == ">=" && strings.Contains(t.Args[0].String(), ").numPending") && strings.HasSuffix(t.Args[1].String(), ".MaxPendingHeadersAndData")
+		}
 		for _, x := range refusing {
 			pos := p.InstrPos(x.In)
 			tgt := nodeSet([]*Node{x})
+			// the guard may have been moved into a predicate: then the refusing return is behind "helper() = true"
+			// and every accepting alternative of the helper must contain both clauses
+			viaHelper := false
+			for _, f := range g.NecessaryEdgesFrom([]*Node{g.Entry}, tgt) {
+				if !f.Pol || f.Cond.Op != "call" {
+					continue
+				}
+				cv, ok := f.Cond.V.(*ssa.Call)
+				if !ok || cv.Common().StaticCallee() == nil || !p.InRepo(cv.Common().StaticCallee()) {
+					continue
+				}
+				callee := cv.Common().StaticCallee()
+				alts := p.AcceptDNF(callee, &Ctx{Parent: f.Cond.Ctx, Site: cv, Fn: callee}, 0, 2)
+				if len(alts) == 0 {
+					continue
+				}
+				allNZ, allOver := true, true
+				for _, alt := range alts {
+					nz, ov := false, false
+					for _, af := range alt {
+						if isLimitNZ(af) {
+							nz = true
+						}
+						if isOver(af) {
+							ov = true
+						}
+					}
+					allNZ = allNZ && nz
+					allOver = allOver && ov
+				}
+				if allNZ || allOver {
+					viaHelper = true
+					if allNZ {
+						c.OK("C08-R1", fnShort(step)+" ⟂ refuse-only-if-limit-set", fn, pos, "the refusing return is behind "+fnShort(callee)+"(), every accepting alternative of which requires limit != 0", true)
+					} else {
+						c.Bad("C08-R1", fnShort(step)+" ⟂ refuse-only-if-limit-set", fn, pos, "block production can be refused although no limit is configured (predicate "+fnShort(callee)+")", nil)
+					}
+					if allOver {
+						c.OK("C08-R1", fnShort(step)+" ⟂ refuse-only-if-count>=limit", fn, pos, "every accepting alternative of "+fnShort(callee)+"() requires a pending count >= limit", true)
+					} else {
+						c.Bad("C08-R1", fnShort(step)+" ⟂ refuse-only-if-count>=limit", fn, pos, "block production can be refused although neither pending count reached the limit (predicate "+fnShort(callee)+")", nil)
+					}
+				}
+			}
+			if viaHelper {
+				continue
+			}
 			c.Decide("C08-R1", fnShort(step)+" ⟂ refuse-only-if-limit-set", fn, pos, "the refusing return requires limit != 0",
 				"block production can be refused although no limit is configured", g, g.PathAvoiding([]*Node{g.Entry}, tgt, orPred(nodeSet(limitNZ), firstAction)))
 			if len(over) < 2 {
